@@ -81,7 +81,13 @@ def emit() -> dict[str, str]:
             t = ast.unparse(n.test)
             des_rows.append((labels.get(t, t), _first_return(n)))
     stmts = [ast.unparse(x) for x in des.body if isinstance(x, ast.Assign)]
-    des_unwraps = stmts[:2] == ["inner, _ = _is_optional_type(type_hint)", "base = _unwrap_annotated(inner)"]
+    if stmts[:2] == ["inner, _ = _is_optional_type(type_hint)", "base = _unwrap_annotated(inner)"]:
+        des_order = "opt-then-ann"
+    elif stmts[:1] == ["base, _ = _is_optional_type(_unwrap_annotated(type_hint))"]:
+        des_order = "ann-then-opt"
+    else:
+        des_order = "unrecognised: " + " ; ".join(stmts[:2])
+    des_unwraps = des_order == "opt-then-ann"
 
     params_opt_first = _opt_first(_func(types, "_build_params_schema"), "hint")
     result_opt_first = _opt_first(_func(types, "_build_result_schema"), "result_type")
@@ -130,6 +136,9 @@ def convertBranches : List (String × String) := [{rows(conv_rows)}]
 def deserializeBranches : List (String × String) := [{rows(des_rows)}]
 /-- `_deserialize_value` unwraps `X | None` and `Annotated[...]` before testing -/
 def deserializeUnwrapsOptional : Bool := {_b(des_unwraps)}
+/-- the order in which `_deserialize_value` peels the hint: "opt-then-ann" (`X | None` first, then `Annotated[...]`, one layer
+each) or "ann-then-opt" -/
+def deserializeOrder : String := {_lean_str(des_order)}
 /-- `_build_params_schema` / `_build_result_schema` unwrap `X | None` before the dataclass test (binary column) -/
 def paramsOptFirst : Bool := {_b(params_opt_first)}
 def resultOptFirst : Bool := {_b(result_opt_first)}
